@@ -100,7 +100,7 @@ def check_file(ctx, path, base, want_values, factor, calc, qs, case_id, cls, dat
 
 
 def _run(ctx, e2e):
-    n = ctx.pick(12, 480)
+    n = ctx.pick(12, 1500)
     for i in range(n):
         case_id = f"ds{i}"
         if not ctx.mine(i, case_id):
